@@ -28,7 +28,7 @@ LEVEL = "model_checking"
 
 FRAGMENT = os.path.join(core.VERIF, "findings_C09.json")
 
-TTI_INV = "BufOnlyInExtension BeginLeEnd TtiFoldAgrees EveryTerminalCounted SetsPartition"
+TTI_INV = "InputWellFormed BufOnlyInExtension BeginLeEnd TtiFoldAgrees EveryTerminalCounted SetsPartition OpenIffSetContinues"
 TTI_PROP = "EmitOnlyOnTerminal NeverEmitWhileAccumulating SkippedLeaveNoTrace SetsGrowMonotonically ExtensionConcatenates"
 TF_INV = "TfFoldAgrees FillerStops FirstGapNone GapIsBreakIffRowChanges RowsMonotone MarkNeedsDiacritic"
 TF_PROP = ("NothingAfterFiller CellCarriesPen TeletextRowStartsDefault OpenKeepsPenAcrossRows "
@@ -97,12 +97,13 @@ def tti_universe(name):
     _blk(9, 9, 0xFE, 0, 0, [0, 0, 0, 0], [0, 0, 0, 0], [0x55]),                       # user data
     _blk(10, 10, 0xF5, 0, 0, [0, 0, 0, 0], [0, 0, 0, 0], [0x52]),                     # reserved EBN
     _blk(11, 300, 0xFF, 0, 0, [0, 1, 0, 0], [0, 1, 0, 0], [0x47], sgn=1, vp=3, jc=1),  # other group, SN > 256, TCI = TCO
+    _blk(12, 12, 0xFF, 2, 0, [0, 0, 1, 12], [0, 0, 3, 0], [0x34], vp=8, jc=3),        # another intermediate member
   ]
   return gsi, cfg, A
 
 
 TF_BYTES_QUICK = [0x41, 0x62, 0x20, 0x01, 0x1D, 0x1C, 0x80, 0x82, 0x8A, 0x8F, 0xC8, 0x0D, 0x0B, 0x85]
-TF_BYTES_THOROUGH = TF_BYTES_QUICK + [0x06, 0x81]
+TF_BYTES_THOROUGH = TF_BYTES_QUICK + [0x06, 0x81, 0x08, 0x86]
 TF_MODES = [{"tt": True, "cct": "00"}, {"tt": False, "cct": "00"}, {"tt": True, "cct": "01"}]
 
 
@@ -175,8 +176,8 @@ def explore_tf(ctx, tfbytes, maxtf):
     raise T.MachineryError("Stl.tla (text-field pen) violates its own properties: " + str(res.violated))
   ctx.tlc(res, f"text-field pen machine, {len(tfbytes)} byte alphabet, <= {maxtf} bytes, 3 modes")
   for a in TF_ACTIONS:
-    if a in ("NTfAttr", "NTfReserved", "NTfBoxing") and res.coverage.get(a, (0, 0))[0] == 0:
-      continue      # classes without a representative in the alphabet are exercised by the random family
+    if a in ("NTfAttr", "NTfReserved") and len(tfbytes) == len(TF_BYTES_QUICK):
+      continue      # no representative in the quick alphabet; exercised by the random family and the thorough tier
     if res.coverage.get(a, (0, 0))[0] == 0:
       raise T.MachineryError("vacuous exploration: action never fired: " + a)
   cases = []
@@ -213,8 +214,6 @@ def features_of(case, clause, tag, blk):
   tt = g["dsc"] in ("1", "2")
   f = {"family": case["family"], "dfc": g["dfc"], "dsc": g["dsc"], "cct": g["cct"], "tag": str(tag),
        "start": case["cfg"]["start"], "rows": case["cfg"]["rows"]}
-  for k, v in (case.get("flags") or {}).items():
-    f["file_" + k] = v
   blocks = case["blocks"]
   if blk and 1 <= blk <= len(blocks):
     b = blocks[blk - 1]
@@ -234,10 +233,11 @@ def features_of(case, clause, tag, blk):
         garbage = garbage or any(x != SB.FILLER for x in t[cut:])
         t = t[:cut]
       tf += t
-    f.update(G.tf_shape(tf, tt, g["cct"]))
+    f["gap_of_two_or_more_spacing_bytes"] = G.tf_shape(tf, tt, g["cct"])["gap_of_two_or_more_spacing_bytes"]
     prev_terminal = next((blocks[q] for q in range(blk - 2, -1, -1)
                           if blocks[q]["ebn"] == 0xFF and blocks[q]["cf"] == 0), None)
-    f.update(cs=b["cs"], jc=b["jc"], vp=b["vp"], sn=b["sn"], n_blocks=len(chain), garbage_after_filler=garbage,
+    f.update(cs=b["cs"], jc=b["jc"], vp=b["vp"], sn=b["sn"], n_blocks=len(chain), extended=len(chain) > 1,
+             garbage_after_filler=garbage,
              sn_same_as_previous_subtitle=bool(prev_terminal is not None and prev_terminal["sn"] == b["sn"]),
              sn_le_256=b["sn"] <= 256)
   return f
@@ -284,22 +284,35 @@ def run(ctx):
 
   # ---- 1. design + spec -> code families ------------------------------------------------------------------------
   cases = []
-  cases += explore_tti(ctx, "teletext25_tcp", 4 if thorough else 3)
-  cases += explore_tti(ctx, "open24_tc", 4 if thorough else 3)
-  cases += explore_tf(ctx, TF_BYTES_THOROUGH if thorough else TF_BYTES_QUICK, 4 if thorough else 3)
-  n_spec = len(cases)
-  ctx.count("cases_enumerated_by_tlc", n_spec)
+  if ctx.replay_case is not None:
+    rc = ctx.replay_case["case"]
+    cases.append({"family": rc.get("family", "replay"), "gsi": rc["gsi"], "cfg": rc["cfg"], "blocks": rc["blocks"],
+                  "via_json": False, "flags": {}})
+    n_spec = 0
+    n_random = 0
+  else:
+    with ThreadPoolExecutor(max_workers=3) as ex:
+      futs = [ex.submit(explore_tti, ctx, "teletext25_tcp", 5 if thorough else 3),
+              ex.submit(explore_tti, ctx, "open24_tc", 4 if thorough else 3),
+              ex.submit(explore_tf, ctx, TF_BYTES_THOROUGH if thorough else TF_BYTES_QUICK, 4 if thorough else 3)]
+      for fu in futs:
+        cases += fu.result()
+    n_spec = len(cases)
+    ctx.count("cases_enumerated_by_tlc", n_spec)
 
-  # ---- 2. code -> spec families -------------------------------------------------------------------------------------
-  cases += G.time_sweep_cases(0, thorough)
-  cases += G.charset_cases(0)
-  cases += G.gsi_edge_cases(0)
-  n_random = 12000 if thorough else 900
-  for _ in range(n_random):
-    cases.append(G.random_case(ctx.rng, 0))
+    # ---- 2. code -> spec families -----------------------------------------------------------------------------------
+    cases += G.time_sweep_cases(0, thorough)
+    cases += G.charset_cases(0)
+    cases += G.gsi_edge_cases(0)
+    n_random = 20000 if thorough else 2000
+    for _ in range(n_random):
+      cases.append(G.random_case(ctx.rng, 0))
+    for _ in range(n_random // 10):
+      cases.append(G.random_case(ctx.rng, 0, repeat_sn=True))
+    ctx.count("cases_random", n_random)
+    ctx.count("cases_sn_magnitude_pairs", n_random // 10)
   for k, c in enumerate(cases):
     c["id"] = k + 1
-  ctx.count("cases_random", n_random)
   ctx.count("cases_total", len(cases))
 
   # ---- 3. run the reader -------------------------------------------------------------------------------------------
@@ -325,7 +338,7 @@ def run(ctx):
                     tuple(sorted(classes))))
 
   # ---- 4. TLC judges every record ---------------------------------------------------------------------------------
-  nparts = 8 if thorough else 4
+  nparts = 8 if thorough else 6
   parts = [(k, recs[k::nparts]) for k in range(nparts)]
   with ThreadPoolExecutor(max_workers=nparts) as ex:
     val = list(ex.map(_validate, parts))
@@ -370,11 +383,12 @@ def run(ctx):
   ctx.count("records_skipped_out_of_domain", skipped)
   for k, v in stat.items():
     ctx.count("judged_" + k, v)
-  if stat["text_judged"] == 0 or stat["geometry_judged"] == 0:
+  if ctx.replay_case is None and (stat["text_judged"] == 0 or stat["geometry_judged"] == 0):
     raise T.MachineryError("vacuous validation: " + json.dumps(stat))
   if skipped > len(recs) // 20:
     raise T.MachineryError(f"{skipped} of {len(recs)} records fell outside the domain: the generators drifted")
-  ctx.sample({"case": {k: cases[n_spec][k] for k in ("family", "gsi", "cfg", "blocks")}, "record_obs": recs[n_spec]["obs"]})
+  if ctx.replay_case is None:
+    ctx.sample({"case": {k: cases[n_spec][k] for k in ("family", "gsi", "cfg", "blocks")}, "record_obs": recs[n_spec]["obs"]})
   ctx.sample({"random_record": recs[-1]})
   ctx.exhaustive = False
   ctx.assume("Tech 3264 defines DFC STL25.01 and STL30.01 (25 and 30 frames/s, labels counted at that rate, no drop-frame "
